@@ -194,6 +194,15 @@ class Model:
             return False
         return walk(outer)
 
+    def add_fixture_module(self, modname, source):
+        """index an extra module from source text (positive-control fixtures of zero-expected rules; never part of /repo)"""
+        tree = ast.parse(source)
+        mod = Mod(modname, '<fixture>', '<fixture:%s>' % modname, source, tree)
+        mod.is_pkg = False
+        self.modules[modname] = mod
+        self._index_module(mod)
+        return mod
+
     # ---------------------------------------------------------------- lookups
     def func(self, qualname):
         f = self.funcs.get(qualname)
